@@ -251,7 +251,10 @@ closed:
 		err = clnt.err
 	}
 	clnt.Unlock()
-	for ; r != nil; r = r.next {
+	for next := r; r != nil; r = next {
+		/* the caller recycles the request (and clears r.next) as soon as
+		   it is woken up */
+		next = r.next
 		r.Err = err
 		if r.Done != nil {
 			r.Done <- r
